@@ -169,6 +169,72 @@ def to_number(value: JSValue) -> Union[int, float]:
     return float("nan")
 
 
+_FLOAT_PREFIX = re.compile(
+    r"[+-]?(?:Infinity|(?:[0-9]+\.?[0-9]*|\.[0-9]+)(?:[eE][+-]?[0-9]+)?)"
+)
+
+
+def js_parse_float(value: JSValue) -> Union[int, float]:
+    """parseFloat: the longest prefix of the trimmed text that is a decimal literal."""
+    text = to_string(value).lstrip(JS_WHITESPACE)
+    match = _FLOAT_PREFIX.match(text)
+    if not match:
+        return float("nan")
+    literal = match.group(0)
+    if literal.endswith("Infinity"):
+        return float("-inf") if literal[0] == "-" else float("inf")
+    return float(literal)
+
+
+def js_parse_int(value: JSValue, radix_value: JSValue = UNDEFINED) -> Union[int, float]:
+    """parseInt: optional sign, optional 0x prefix, digits of the radix (ToInt32)."""
+    text = to_string(value).lstrip(JS_WHITESPACE)
+    negative = text[:1] == "-"
+    if text[:1] in ("+", "-"):
+        text = text[1:]
+
+    radix_number = to_number(radix_value)
+    if math.isnan(radix_number) or math.isinf(radix_number):
+        radix = 0
+    else:
+        radix = int(radix_number) & 0xFFFFFFFF
+        if radix >= 0x80000000:
+            radix -= 0x100000000
+
+    strip_prefix = True
+    if radix != 0:
+        if radix < 2 or radix > 36:
+            return float("nan")
+        if radix != 16:
+            strip_prefix = False
+    else:
+        radix = 10
+    if strip_prefix and text[:2] in ("0x", "0X"):
+        text = text[2:]
+        radix = 16
+
+    result = 0
+    found = False
+    for ch in text:
+        if "0" <= ch <= "9":
+            digit = ord(ch) - ord("0")
+        elif "a" <= ch <= "z":
+            digit = ord(ch) - ord("a") + 10
+        elif "A" <= ch <= "Z":
+            digit = ord(ch) - ord("A") + 10
+        else:
+            break
+        if digit >= radix:
+            break
+        result = result * radix + digit
+        found = True
+    if not found:
+        return float("nan")
+    if negative:
+        return -0.0 if result == 0 else norm_number(-result)
+    return norm_number(result)
+
+
 def to_integer(value: JSValue) -> int:
     """Convert an argument to an integer (ToIntegerOrInfinity).
 
